@@ -164,6 +164,23 @@ def spec_feats(spec, prefix=""):
     }
 
 
+def as_conj(spec):
+    """spec of an operand that is *built as a conjugate*: the array described by
+    `spec` (same indices / charge parity) but obtained through conj(), so that its
+    labels are dual.  (conj is only used to construct the input; the oracle reads
+    the resulting array.)"""
+    sym = spec["sym"]
+    out = dict(spec)
+    out["indices"] = [conj_index_spec(i) for i in spec["indices"]]
+    out["charge"] = jcharge(G.neg(sym, ucharge(spec["charge"])))
+    out["pre_ops"] = list(spec.get("pre_ops", [])) + [["conj"]]
+    return out
+
+
+def ispecs_of(x):
+    return [{"cm": [[jcharge(c), int(n)] for c, n in ix.chargemap.items()], "dual": bool(ix.dual)} for ix in x.indices]
+
+
 def normalise(d):
     """what a JSON round trip does to the descriptor (replay fidelity)"""
     return json.loads(json.dumps(d))
@@ -359,6 +376,13 @@ def gen_cases(tier, seed):
                                         la, lb = ((1, 2), (2, 1))[ctr % 2]
                                         a = mk_spec(sym, ia, pick_charge(sym, ia, pa_, ctr), h + ctr, label=la, lazy=(ctr % 4 == 0), sparse=(ctr % 5 == 0))
                                         b = mk_spec(sym, ib, pick_charge(sym, ib, pb_, ctr // 2), h + 3 * ctr, label=lb, lazy=(ctr % 6 == 0), sparse=(ctr % 7 == 0))
+                                        if ctr % 9 == 0:
+                                            # partner built as a conjugate: dual label, possibly the conjugate of a's label
+                                            b = as_conj(b)
+                                            if ctr % 2 and "oddpos" in a and "oddpos" in b:
+                                                b["oddpos"] = a["oddpos"]
+                                        elif ctr % 9 == 1:
+                                            a = as_conj(a)
                                         modes = ("fused", "blockwise") if (sym == "Z2" or tier != "quick") else (("fused", "blockwise")[ctr % 2],)
                                         for mode in modes:
                                             yield {"contract": "C03.tensordot", "a": a, "b": b, "axes": [list(axa), list(axb)], "mode": mode, "preserve": bool(ctr % 2)}
@@ -388,6 +412,7 @@ def gen_cases(tier, seed):
                     inds[j] = conj_index_spec(a["indices"][na - k + j])
             b = rand_array_spec(rng, sym, fermionic=True, indices=inds, lazy=bool(rng.integers(0, 2)), dtype=dtype)
             _rand_labels(rng, a, b)
+            a, b = _rand_conj(rng, a, b)
             d = {"contract": "C03.tensordot", "a": a, "b": b, "axes": axes, "mode": ("fused", "blockwise", "auto")[int(rng.integers(0, 3))], "preserve": bool(rng.integers(0, 2))}
             yield d
         elif kind in (6, 7):
@@ -413,7 +438,27 @@ def gen_cases(tier, seed):
             inds[0] = conj_index_spec(a["indices"][-1])
             b = rand_array_spec(rng, sym, fermionic=True, indices=inds, lazy=bool(rng.integers(0, 2)), dtype=dtype)
             _rand_labels(rng, a, b)
+            a, b = _rand_conj(rng, a, b)
             yield {"contract": "C03.matmul", "a": a, "b": b}
+
+
+def _rand_conj(rng, a, b):
+    """sometimes build an operand as a conjugate (dual labels); single-label operands
+    may then carry the conjugate pair l- / l+ (annihilated by the contraction)"""
+    r = int(rng.integers(0, 10))
+    if r >= 3:
+        return a, b
+    if r == 0:
+        b = as_conj(b)
+    elif r == 1:
+        a = as_conj(a)
+    else:
+        a, b = as_conj(a), as_conj(b)
+    la, lb = a.get("oddpos"), b.get("oddpos")
+    single = lambda l: l is not None and (not isinstance(l, list) or len(l) == 1)  # noqa: E731
+    if r in (0, 1) and single(la) and single(lb) and rng.integers(0, 2):
+        b["oddpos"] = la
+    return a, b
 
 
 def _rand_labels(rng, a, b):
@@ -461,8 +506,8 @@ def check_case(d):
     nontrivial = bool(xa.blocks)
     fails = []
     sample = None
-    zero = G.zero(sym)
-    ca = ucharge(a.get("charge", jcharge(zero)))
+    ca = xa.charge
+    ia = ispecs_of(xa)
 
     if c == "C03.transpose":
         perm = d["perm"]
@@ -473,7 +518,7 @@ def check_case(d):
             return {"fingerprint": fp, "nontrivial": nontrivial, "failures": [(c + ".no_exception", _exc(e), feats)]}
         p = list(range(len(a["indices"]) - 1, -1, -1)) if perm is None else perm
         g = OF.g_transpose(ga, p)
-        exp = [a["indices"][i] for i in p]
+        exp = [ia[i] for i in p]
         fl = OF.compare_to_gt(r, g, exp, ca)
         # transposition must keep the full index tables
         if hasattr(r, "indices") and not fl:
@@ -499,7 +544,7 @@ def check_case(d):
             axa, axb = axes
             axes_arg = (tuple(axa), tuple(axb))
         feats.update(spec_feats(b, "b_"))
-        feats.update({"mode": d["mode"], "ncon": len(axa), "preserve": d["preserve"], "a_nlabels": len(ga.labels), "b_nlabels": len(gb.labels)})
+        feats.update({"mode": d["mode"], "ncon": len(axa), "preserve": d["preserve"], "a_nlabels": len(ga.labels), "b_nlabels": len(gb.labels), "dual_labels": any(dl for _, dl in ga.labels + gb.labels)})
         fp = ("D", spec_fp(a), spec_fp(b), repr(axes), d["mode"], d["preserve"])
         nontrivial = bool(xa.blocks) and bool(xb.blocks)
         try:
@@ -507,9 +552,9 @@ def check_case(d):
         except Exception as e:  # noqa: BLE001
             return {"fingerprint": fp, "nontrivial": nontrivial, "failures": [(c + ".no_exception", _exc(e), feats)]}
         g = OF.g_contract(ga, gb, axa, axb)
-        exp = [a["indices"][i] for i in range(na) if i not in axa] + [b["indices"][i] for i in range(nb) if i not in axb]
-        cb = ucharge(b.get("charge", jcharge(zero)))
-        fl = OF.compare_to_gt(r, g, exp, G.add(sym, ca, cb))
+        ib = ispecs_of(xb)
+        exp = [ia[i] for i in range(na) if i not in axa] + [ib[i] for i in range(nb) if i not in axb]
+        fl = OF.compare_to_gt(r, g, exp, G.add(sym, ca, xb.charge))
         if g.ndim == 0 and d["preserve"] and not hasattr(r, "blocks"):
             fl.append(("shape", "preserve_array=True returned a bare scalar"))
         if g.ndim == 0 and (not d["preserve"]) and hasattr(r, "blocks"):
@@ -535,9 +580,8 @@ def check_case(d):
         except Exception as e:  # noqa: BLE001
             return {"fingerprint": fp, "nontrivial": nontrivial, "failures": [(c + ".no_exception", _exc(e), feats)]}
         g = OF.g_contract(ga, gb, [ga.ndim - 1], [0])
-        exp = a["indices"][:-1] + b["indices"][1:]
-        cb = ucharge(b.get("charge", jcharge(zero)))
-        fl = OF.compare_to_gt(r, g, exp, G.add(sym, ca, cb))
+        exp = ia[:-1] + ispecs_of(xb)[1:]
+        fl = OF.compare_to_gt(r, g, exp, G.add(sym, ca, xb.charge))
         la = [f"a{i}" for i in range(ga.ndim - 1)] + ["c"]
         lb = ["c"] + [f"b{i}" for i in range(1, gb.ndim)]
         crosscheck_bf([ga, gb], [la, lb], la[:-1] + lb[1:], g)
@@ -579,7 +623,7 @@ def check_case(d):
         except Exception as e:  # noqa: BLE001
             return {"fingerprint": fp, "nontrivial": nontrivial, "failures": [(c + ".no_exception", _exc(e), feats)]}
         g = OF.g_einsum(ga, lhs, rhs)
-        exp = [a["indices"][lhs.index(q)] for q in rhs]
+        exp = [ia[lhs.index(q)] for q in rhs]
         fl = OF.compare_to_gt(r, g, exp, ca)
         crosscheck_bf([ga], [list(lhs)], list(rhs), g)
         fails = _wrap(c, fl, feats)
@@ -593,7 +637,7 @@ def check_case(d):
         except Exception as e:  # noqa: BLE001
             return {"fingerprint": fp, "nontrivial": nontrivial, "failures": [(c + ".no_exception", _exc(e), feats)]}
         g = OF.g_phase_flip(ga, axs)
-        fl = OF.compare_to_gt(r, g, a["indices"], ca)
+        fl = OF.compare_to_gt(r, g, ia, ca)
         fails = _wrap(c, fl, feats)
         sample = {"sym": sym, "axs": axs}
 
